@@ -95,8 +95,8 @@ def c04_runs(tier, scale):
 
 def c15_runs(tier, scale):
     if tier == "thorough":
-        return [("c15", [1], None), ("c04", [300 * scale], None), ("c05", [65536, 1], None)]
-    return [("c15", [0], None), ("c04", [40 * scale], None)]
+        return [("c15", [1], None), ("c15", [1, "ratio"], None), ("c04", [300 * scale], None), ("c05", [65536, 1], None)]
+    return [("c15", [0], None), ("c15", [0, "ratio"], None), ("c04", [40 * scale], None)]
 
 
 PROPS = {
